@@ -54,6 +54,7 @@ Print Assumptions C01_cache_coherent.
 Theorem C01_restart_answers_and_coherence : forall cfg, cfg_wf cfg -> fix_block_dirty cfg = true -> fix_gpv_drop cfg = true -> fix_whitelist cfg = true ->
   0 < csize cfg -> forall bs, blocks_ok cfg bs ->
   obs cfg (reinit cfg (reach cfg bs)) = obs cfg (reach cfg bs)
+  /\ (forall role index a, obsX (reinit cfg (reach cfg bs)) role index a = obsX (reach cfg bs) role index a)
   /\ sto (reinit cfg (reach cfg bs)) = sto (reach cfg bs)
   /\ Coh cfg (reinit cfg (reach cfg bs)).
 Proof. exact restart_transparent_partial. Qed.
@@ -68,7 +69,9 @@ Print Assumptions C01_restart_answers_and_coherence.
 Theorem C01_restart_transparent : forall cfg, cfg_wf cfg -> fix_block_dirty cfg = true -> fix_gpv_drop cfg = true -> fix_whitelist cfg = true ->
   0 < csize cfg -> forall bs bs', blocks_ok cfg bs -> blocks_ok cfg bs' ->
   sto (fold_left (step cfg) bs' (reinit cfg (reach cfg bs))) = sto (fold_left (step cfg) bs' (reach cfg bs))
-  /\ obs cfg (fold_left (step cfg) bs' (reinit cfg (reach cfg bs))) = obs cfg (fold_left (step cfg) bs' (reach cfg bs)).
+  /\ obs cfg (fold_left (step cfg) bs' (reinit cfg (reach cfg bs))) = obs cfg (fold_left (step cfg) bs' (reach cfg bs))
+  /\ (forall role index a, obsX (fold_left (step cfg) bs' (reinit cfg (reach cfg bs))) role index a
+                           = obsX (fold_left (step cfg) bs' (reach cfg bs)) role index a).
 Proof. exact restart_transparent_full. Qed.
 Print Assumptions C01_restart_transparent.
 
@@ -76,7 +79,8 @@ Print Assumptions C01_restart_transparent.
 Theorem C01_restarts_transparent : forall cfg, cfg_wf cfg -> fix_block_dirty cfg = true -> fix_gpv_drop cfg = true -> fix_whitelist cfg = true ->
   0 < csize cfg -> forall es, blocks_ok cfg (gblocks es) ->
   sto (fold_left (gstep cfg) es (genesis cfg)) = sto (reach cfg (gblocks es))
-  /\ obs cfg (fold_left (gstep cfg) es (genesis cfg)) = obs cfg (reach cfg (gblocks es)).
+  /\ obs cfg (fold_left (gstep cfg) es (genesis cfg)) = obs cfg (reach cfg (gblocks es))
+  /\ (forall role index a, obsX (fold_left (gstep cfg) es (genesis cfg)) role index a = obsX (reach cfg (gblocks es)) role index a).
 Proof. exact restarts_transparent_full. Qed.
 Print Assumptions C01_restarts_transparent.
 
